@@ -457,7 +457,7 @@ func init() {
 	engine.Register(&engine.Check{
 		ID:    "C11",
 		Level: "exploration",
-		Rule: "values: nil, bools, 18 boundary ints, ~190 finite floats, 1-char strings over U+0000..U+20FF + every 257th scalar above + representatives [thorough: all Unicode scalars], all 2-char strings over a 21-char adversarial pool; interleaving: encode a, encode b twice, then decode a, b, a for all ordered pairs of 14 values; shapes: scalar, arrays (1, 2 elements, nested), hashes and named records with symbol keys (1 key x every scalar, 3 keys in all 6 orders, nested two levels, awkward field names), hashes with string keys; " +
+		Rule: "values: nil, bools, 18 boundary ints, ~190 finite floats, 1-char strings over U+0000..U+20FF + every 257th scalar above + representatives [thorough: all Unicode scalars], all 2-char strings over a 21-char adversarial pool; strings written as raw (backtick) literals holding backslashes, quotes, newlines and % (bare, in arrays, hashes, records, concatenated); interleaving: encode a, encode b twice, then decode a, b, a for all ordered pairs of 14 values; shapes: scalar, arrays (1, 2 elements, nested), hashes and named records with symbol keys (1 key x every scalar, 3 keys in all 6 orders, nested two levels, awkward field names), hashes with string keys; " +
 			"(unjson (json v)) and (unmsgpack (msgpack v)) must equal v incl. record type names and key order at every level; the bytes of (json v) must be accepted by encoding/json and denote the same data",
 		Assumptions: []string{"NaN/Inf are excluded (JSON has no spelling for them)", "for string-keyed hashes only the JSON text is judged (decoding yields symbol keys)"},
 		Run: func(c *engine.Ctx) {
